@@ -38,10 +38,11 @@ var c17Msgs = []string{
 	"SAMECODE begins with the very code that is set", "first line\nSAMECODE second line begins with the set code",
 	"100% full, %s and %d are not verbs %", "percent %v\nsecond %x line",
 	"line one\nline two", "l1\nl2\nl3", "first\n\nthird after empty", "a\n5.7.1 second line looks like a code", "tab\tinside",
+	"trailing empty line\n", "long " + strings.Repeat("word ", 130) + "end", "short first\n" + strings.Repeat("x", 700),
 }
 
 func c17Run(ctx *core.Ctx) {
-	ctx.Rule = "reply codes {450,451,452,550,552,554,599} x enhanced code {class-consistent, unset (EnhancedCodeNotSet), explicitly absent (NoEnhancedCode)} x 12 message shapes (empty, leading/trailing space, text that looks like an enhanced code, non-ASCII, 1-3 lines, empty inner line) x the four callbacks (session creation, Mail, Rcpt, Data; DATA and BDAT; SMTP and LMTP) plus plain errors; observed twice: on the wire with the strict reply parser, and through the real go-smtp client's returned *SMTPError. Non-trivial: every case; distinct by case."
+	ctx.Rule = "reply codes {450,451,452,550,552,554,599} x enhanced code {class-consistent, unset (EnhancedCodeNotSet), explicitly absent (NoEnhancedCode)} x 19 message shapes (empty, 650- and 700-octet lines, trailing empty line, leading/trailing space, text that looks like an enhanced code, non-ASCII, 1-3 lines, empty inner line) x the four callbacks (session creation, Mail, Rcpt, Data; DATA and BDAT; SMTP and LMTP) plus plain errors; observed twice: on the wire with the strict reply parser, and through the real go-smtp client's returned *SMTPError. Non-trivial: every case; distinct by case."
 	ctx.Exhaustive = true
 	ctx.Assumptions = []string{"NoEnhancedCode combined with text that looks like an enhanced code is not judged on the client side (the wire form is ambiguous)", "codes 500/502 are not used for session creation (the client falls back to HELO on them)"}
 	core.RunCases(ctx, func(emit func(c17Case)) {
